@@ -297,21 +297,48 @@ def _short(x):
 # ------------------------------------------------------------------ minimiser
 
 
-def ddmin_ops(engine, doc, classes, target_cls, budget_s=90, max_exec=200):
-  """Delta debugging over doc['ops'] preserving a violation of class target_cls."""
-  t0 = time.time()
-  execs = [0]
-
+def violation_tester(engine, doc, classes, target_cls):
+  """Returns test_many(list of ops lists) -> [bool]: does the violation class persist?"""
   def test_many(cands):
     items = []
     for i, ops in enumerate(cands):
       d = dict(doc)
       d['ops'] = ops
       items.append((i, {'prop': engine.prop, 'doc': d}, classes))
-    execs[0] += len(items)
     res = engine.run_many(items)
     return [target_cls in res[i].classes_of() if res[i].status == 'ok' else False
             for i in range(len(cands))]
+  return test_many
+
+
+def hashseed_tester(engine, doc, classes):
+  """Persisting violation = event logs differ between the two hash-seed classes."""
+  def test_many(cands):
+    items = []
+    for i, ops in enumerate(cands):
+      d = dict(doc)
+      d['ops'] = ops
+      items.append(((i, 0), {'prop': engine.prop, 'doc': d}, classes))
+      items.append(((i, 1), {'prop': engine.prop, 'doc': d}, (classes[1], classes[0])))
+    res = engine.run_many(items)
+    out = []
+    for i in range(len(cands)):
+      a, b = res[(i, 0)], res[(i, 1)]
+      out.append(a.status == 'ok' and b.status == 'ok'
+                 and a.result['log_digest'] != b.result['log_digest'])
+    return out
+  return test_many
+
+
+def ddmin_ops(engine, doc, classes, target_cls, budget_s=90, max_exec=200, tester=None):
+  """Delta debugging over doc['ops'] preserving a violation of class target_cls."""
+  t0 = time.time()
+  execs = [0]
+  inner = tester or violation_tester(engine, doc, classes, target_cls)
+
+  def test_many(cands):
+    execs[0] += len(cands)
+    return inner(cands)
 
   ops = list(doc['ops'])
   n = 2
@@ -386,6 +413,14 @@ def replay_fresh(prop, doc, scratch):
   hs = doc['hash_seeds']
   res = oneshot(prop, hs['sut'], 'run', {'prop': prop, 'doc': doc}, scratch)
   viol = list(res['violations'])
+  if ((doc.get('expect') or {}).get('cls') or '').endswith('hash-seed-dependence'):
+    res2 = oneshot(prop, hs['ref'], 'run', {'prop': prop, 'doc': doc}, scratch)
+    if res['log_digest'] != res2['log_digest']:
+      step = next((i for i, (a, b) in enumerate(zip(res['log'], res2['log'])) if a != b), 0)
+      viol.append({'cls': doc['expect']['cls'], 'step': step,
+                   'detail': 'event logs differ between PYTHONHASHSEED=%s and %s: %s vs %s'
+                             % (hs['sut'], hs['ref'], res['log'][step:step + 1], res2['log'][step:step + 1])})
+    return viol, res
   for o in res['obligations']:
     ans = oneshot(prop, hs['ref'], 'ref', {'prop': prop, 'ob': o['payload']}, scratch)
     one = compare_obligation(o, ans)
